@@ -1,45 +1,61 @@
 (* Executable checkers for the correspondence run (tie K) of C12, second part:
-   * pairs in COMPACT form: the operand groups a, b are indices into a table of the distinct operand groups of the run
-     (Cases/C12/tables.v, a two-level list, 64 groups per chunk; `required_of` of each is computed once by the model);
-     the observed a|b and a&b are bit masks over the universe's element order (bit k = k-th element), decoded here into
-     the name list in universe order and compared as LISTS with the model's result (the harness reports an
-     implementation result that is not in universe order as an oracle failure before encoding it).
-     Same comparison as GroupCheck.chk_pair (| & <= == hash isdisjoint), without parsing four name lists and without
-     re-computing the two `required` tuples for every pair.
+   * pairs in COMPACT form (a case is seven machine integers; Coq parses primitive-integer literals natively, 8x faster
+     than four lists of names): the operand groups a, b are indices into a table of the distinct operand groups of the
+     run (Cases/C12/tables.v, a two-level list, 64 groups per chunk; `required_of` of each is computed once by the
+     model); the observed a|b and a&b are bit masks over the universe's element order (bit k of `lo` = element k,
+     bit k of `hi` = element 60+k), decoded here into the name list in universe order and compared as LISTS with the
+     model's result (the harness reports an implementation result that is not in universe order as an oracle failure
+     before encoding it).  Same comparison as GroupCheck.chk_pair (| & <= == hash isdisjoint).
+     Primitive integers are used ONLY here (test data transport), never in a model or a theorem.
    * the GENERATED algorithms (Gen/GroupGen.v) against the implementation: constructor (+ data_coordinate_keys),
      n-ary union / intersection, comparisons. *)
-From Coq Require Import String List Bool Arith NArith.
+From Coq Require Import String List Bool Arith ZArith Uint63.
 From V Require Import Model.Universe Model.Group Model.GroupX Model.GroupCheck Gen.GroupGen.
 Import ListNotations.
 Open Scope list_scope.
 
 Definition table := list (list (list string)).       (* chunks of 64 groups (names) *)
 
-Definition lk (t : table) (i : N) : list string :=
-  nth (N.to_nat (N.modulo i 64)) (nth (N.to_nat (N.div i 64)) t []) [].
+Definition i2n (i : int) : nat := Z.to_nat (Uint63.to_Z i).
+
+Definition lk (t : table) (i : int) : list string :=
+  nth (i2n (PrimInt63.land i 63%uint63)) (nth (i2n (PrimInt63.lsr i 6%uint63)) t []) [].
 
 Definition required_table (u : universe) (t : table) : table := map (map (required_of u)) t.
 
-Fixpoint unmask (u : universe) (m : N) : list string :=
+Definition bit0 (m : int) : bool := PrimInt63.eqb (PrimInt63.land m 1%uint63) 1%uint63.
+
+Fixpoint unmask1 (u : universe) (m : int) : list string :=
   match u with
   | [] => []
-  | e :: r => if N.odd m then ename e :: unmask r (N.div2 m) else unmask r (N.div2 m)
+  | e :: r => if bit0 m then ename e :: unmask1 r (PrimInt63.lsr m 1%uint63) else unmask1 r (PrimInt63.lsr m 1%uint63)
   end.
 
-(* (i, j, mask of a|b, mask of a&b, [a<=b; a==b; hash a == hash b; a.isdisjoint(b)]) *)
-Definition chk_pair_ix (u : universe) (t tr : table) (c : N * N * N * N * list bool) : bool :=
-  let '(i, j, mu, mi, bs) := c in
+Definition unmask (u : universe) (lo hi : int) : list string := unmask1 (firstn 60 u) lo ++ unmask1 (skipn 60 u) hi.
+
+Definition bit (b : int) (k : int) : bool := bit0 (PrimInt63.lsr b k).
+
+(* (i, j, mask of a|b (lo, hi), mask of a&b (lo, hi), bits: 0 a<=b, 1 a==b, 2 hash a == hash b, 3 a.isdisjoint(b)) *)
+Definition pcase := (int * int * int * int * int * int * int)%type.
+
+Definition chk_pair_ix (u : universe) (t tr : table) (c : pcase) : bool :=
+  let '(i, j, ulo, uhi, ilo, ihi, b) := c in
   let na := lk t i in
   let nb := lk t j in
   match closure u (na ++ nb), closure u (filter (fun d => memb d nb) na) with
   | GOk un, GOk it =>
-    list_eqb un (unmask u mu) && list_eqb it (unmask u mi)
-    && bools_eqb bs [forallb (fun d => memb d nb) na; list_eqb na nb;
-                     list_eqb (lk tr i) (lk tr j); forallb (fun d => negb (memb d nb)) na]
+    list_eqb un (unmask u ulo uhi) && list_eqb it (unmask u ilo ihi)
+    && bools_eqb [bit b 0%uint63; bit b 1%uint63; bit b 2%uint63; bit b 3%uint63]
+                 [forallb (fun d => memb d nb) na; list_eqb na nb;
+                  list_eqb (lk tr i) (lk tr j); forallb (fun d => negb (memb d nb)) na]
   | _, _ => false
   end.
 
-Definition chk_pair_t (c : (universe * table * table) * (N * N * N * N * list bool)) : bool :=
+Definition mk63 (T : universe * table * table) (i j ulo uhi ilo ihi b : int) : (universe * table * table) * pcase :=
+  (T, (i, j, ulo, uhi, ilo, ihi, b)).
+Arguments mk63 T (i j ulo uhi ilo ihi b)%uint63.
+
+Definition chk_pair_t (c : (universe * table * table) * pcase) : bool :=
   let '((u, t, tr), c') := c in chk_pair_ix u t tr c'.
 
 (* ---- generated algorithms vs implementation ---- *)
